@@ -1,0 +1,44 @@
+//! Verification-only probe points, compiled only with the `verif-hooks` feature.
+//!
+//! A probe is a named point in the library at which an externally installed
+//! callback runs. With no callback installed a probe is a single relaxed atomic
+//! load. The external verification harness uses probes to (a) perturb thread
+//! schedules at chosen points and (b) kill the process at chosen points of the
+//! value-stream commit sequence. Nothing in the library depends on a probe's
+//! effect.
+
+use std::sync::atomic::{AtomicBool, Ordering};
+use std::sync::{Arc, RwLock};
+
+type ProbeFn = Arc<dyn Fn(&'static str) + Send + Sync>;
+
+static ENABLED: AtomicBool = AtomicBool::new(false);
+static PROBE: RwLock<Option<ProbeFn>> = RwLock::new(None);
+
+/// Install (or clear, with `None`) the process-wide probe callback.
+pub fn set_probe(f: Option<ProbeFn>) {
+    let mut slot = match PROBE.write() {
+        Ok(g) => g,
+        Err(p) => p.into_inner(),
+    };
+    ENABLED.store(f.is_some(), Ordering::SeqCst);
+    *slot = f;
+}
+
+/// Run the installed probe callback, if any, for the named point.
+#[inline]
+pub fn probe(point: &'static str) {
+    if !ENABLED.load(Ordering::Relaxed) {
+        return;
+    }
+    let f = {
+        let slot = match PROBE.read() {
+            Ok(g) => g,
+            Err(p) => p.into_inner(),
+        };
+        slot.clone()
+    };
+    if let Some(f) = f {
+        f(point);
+    }
+}
